@@ -1,6 +1,6 @@
 (* C11 — a tree accepted by check_boolean_result only ever evaluates to a Boolean. Property theorems only. *)
 Require Import List Bool NArith ZArith. Import ListNotations.
-Require Import F64 Dec Types Generic Lang Opt IO GenValidate GenInterp InterpFacts.
+Require Import F64 Dec Types Generic Lang Opt IO GenValidate InterpTypes InterpRead GenEvalArms GenValueOps InterpOps InterpFacts.
 Definition leaves_bool (E:env) : expr -> Prop := Generic.leaves_bool as_bool is_empty un binop E is_boolv.
 Definition op_eqb (a b:op) : bool := match a, b with
   | Plus,Plus|Minus,Minus|Multiply,Multiply|Divide,Divide|Greater,Greater|GreaterEqual,GreaterEqual|Less,Less|LessEqual,LessEqual
